@@ -40,7 +40,9 @@ def family_main(prop: str, tier: str, seed: int, jobs, rule: str, bounds: dict, 
     t0 = time.time()
     rule += (" The family also contains the syntactic variants of its programs (statement order, literal order, negated / "
              "doubly negated aggregates and conditional literals, function / arithmetic tuple terms, mirrored comparisons, "
-             "one-line layout; quick: variants of the sub-bounded slice, thorough: of all programs).") if bounds.get(
+             "one-line layout) and the semantic variants (doubly negated literals, an extra definition / an input declaration for "
+             "every derived predicate, alpha-renaming clashes, variable priorities, twin objectives) of a deterministic, evenly "
+             "spaced sub-family (quick: <= 200 / 60 programs of the slice, thorough: <= 3000 / 400 of all programs).") if bounds.get(
         "variants") else ""
     agg = driver.Aggregate()
     driver.run_pool(jobs, seed, agg.add)
